@@ -175,6 +175,17 @@ def gen_case(rng, tier, with_classes=False):
 def generate(rng, tier):
     n = 90 if tier == "quick" else 1200
     cases = [gen_case(rng, tier) for _ in range(n)]
+    # always present: cosine distance between LOW-MAGNITUDE projected vectors (norm products far below 1e-8)
+    found = 0
+    for _ in range(400):
+        if found >= 3:
+            break
+        c = gen_case(rng, tier)
+        if c["dist"] == "cosine" and c["n"] >= 4:
+            w = 2.0 ** -17
+            c["proj"] = dict(kind="wconst", sp=None, wk="const", w=[w, w], how="Projection", mappable=False, wtype="np")
+            cases.append(c)
+            found += 1
     for c in cases:
         # a quarter of the cases re-use the object with another k (set through the public setter)
         if c["n"] >= 2 and rng.random() < 0.25:
